@@ -650,6 +650,13 @@ class TermBuilder:
         st = blk.stmts[i]
         ref_local = st.place.local if st.place.is_local() else None
         t = blk.term
+        if ref_local is not None and t.k == "call" and not t.callee_is_local() and t.callee_name() in IN_PLACE_PERMUTATIONS:
+            return self.local(l, b, i)     # same elements, other order: streams are compared as multisets
+        if t.k == "call" and t.callee_name() in ("deref_mut", "as_mut_slice", "as_mut") and not t.callee_is_local():
+            # `&mut v` -> `&mut [T]` on the way to an in-place permutation in the next block
+            nb = t.j.get("target")
+            if nb is not None and self.fn.blocks[nb].term.k == "call" and self.fn.blocks[nb].term.callee_name() in IN_PLACE_PERMUTATIONS:
+                return self.local(l, b, i)
         if ref_local is None or t.k != "call" or not t.callee_is_local() or self.prog is None or self.prog.fn(t.callee()) is None:
             return ("clobber", l)
         # follow `_a = &mut (*_r)` reborrows inside the block
@@ -880,11 +887,15 @@ class TermBuilder:
                         if st.k == "assign" and st.place.proj and st.place.proj[0]["k"] == "deref" and 1 <= st.place.local <= cf.arg_count:
                             return False
                 return True
+            # straight-line helpers without stores through their parameters whose calls are all external library calls
+            # (they stay uninterpreted symbols of the term) or in the table of local getters: crate-local functions that the
+            # rule templates name explicitly (start, iter_for, scan, count, ...) are NOT inlined
             safe = INLINE_SAFE_CALLEES | FLOAT_METHODS | INT_METHODS | RNG_DRAWS
-            ok = (len(nb) <= 14 and not cf.loop_heads() and len(cf.exits()) == 1
-                  and all(b.term.k in ("return", "goto", "call", "assert") for b in nb)
+            ok = (len(nb) <= 16 and not cf.loop_heads() and len(cf.exits()) == 1
+                  and all(b.term.k in ("return", "goto", "call", "assert", "drop") for b in nb)
                   and no_param_stores()
-                  and all((not b.term.k == "call") or (b.term.callee_name() in safe) for b in nb))
+                  and cf.name not in NO_INLINE
+                  and all((not b.term.k == "call") or (b.term.callee_name() in safe) or (not b.term.callee_is_local() and b.term.callee_name() in INLINE_SAFE_EXTERNAL) for b in nb))
             _INLINE_OK[key] = ok
         if not ok:
             return None
@@ -897,7 +908,12 @@ class TermBuilder:
         return r
 
 
+IN_PLACE_PERMUTATIONS = {"sort", "sort_by", "sort_by_key", "sort_unstable", "sort_unstable_by", "sort_unstable_by_key", "sort_by_cached_key"}
 _INLINE_OK = {}
+INLINE_SAFE_EXTERNAL = {"from_elem", "zero", "one", "checked_mul", "checked_add", "checked_sub", "unwrap", "expect", "new", "with_capacity",
+                        "default", "with_fill", "block_with_fill", "size_of"}
+NO_INLINE = {"start", "fingerprint", "hash", "iter_for", "h_i", "scan", "count", "sum", "calc_quotient_remainder", "insert_internal",
+             "at_start_of_run", "has_run", "all_zero_intvector", "with_registers_and_hash", "with_params_and_hash", "with_params_and_hasher", "f", "fuse"}
 INLINE_SAFE_CALLEES = {"len", "element_bits", "deref", "borrow", "clone", "as_ref", "is_empty", "m", "k", "buildhasher", "bits_remainder",
                        "is_some", "is_none", "mean", "delta"}
 
